@@ -88,7 +88,17 @@ def showSpec : SOut → String
 structure St where
   m : Mqtt.Model.Client.C := {}
   s : Mqtt.Spec.Client.S := {}
+  cbs : List Nat := []       -- message callback ids used by the Subscribe calls of this episode
 
+/-- the callback id of a Subscribe call -/
+def subCb : Ev → Option Nat
+  | .api (.subscribe _ _ _ cb) => some cb
+  | .apiEarlyAck (.subscribe _ _ _ cb) _ => some cb
+  | _ => none
+
+/-- A callback id stands for the *request* (`service.subscribe` allocates one `&onPublish` pointer
+per call): a Subscribe under an id that an earlier Subscribe of the episode used is refused
+(`bad-op`, as in the harness), so that "same callback" here is pointer identity there. -/
 def handle (st : St) (ws : List String) : St × String × String :=
   match ws with
   | ["reset"] => ({}, "reset", "reset")
@@ -96,8 +106,15 @@ def handle (st : St) (ws : List String) : St × String × String :=
     match parseEv ws with
     | none => (st, "bad-op", "bad-op")
     | some ev =>
-      let (m, mo) := Mqtt.Model.Client.step st.m ev
-      let (s, so) := Mqtt.Spec.Client.step st.s ev
-      (⟨m, s⟩, line (mo.map showOut), line (so.map showSpec))
+      match subCb ev with
+      | some cb =>
+        if st.cbs.contains cb then (st, "bad-op", "bad-op") else
+        let (m, mo) := Mqtt.Model.Client.step st.m ev
+        let (s, so) := Mqtt.Spec.Client.step st.s ev
+        (⟨m, s, cb :: st.cbs⟩, line (mo.map showOut), line (so.map showSpec))
+      | none =>
+        let (m, mo) := Mqtt.Model.Client.step st.m ev
+        let (s, so) := Mqtt.Spec.Client.step st.s ev
+        (⟨m, s, st.cbs⟩, line (mo.map showOut), line (so.map showSpec))
 
 end Mqtt.Driver.Client
